@@ -510,7 +510,11 @@ func (r *Recomposer) recomp(v any, rv reflect.Value) {
 		reflect.Uint, reflect.Uint8, reflect.Uint16, reflect.Uint32, reflect.Uint64,
 		reflect.Float32, reflect.Float64,
 		reflect.String:
-		rv.Set(reflect.ValueOf(v).Convert(rv.Type()))
+		if _, ok := v.(json.Number); ok && rv.Kind() != reflect.String {
+			r.setValue(v, rv, nil)
+		} else {
+			rv.Set(reflect.ValueOf(v).Convert(rv.Type()))
+		}
 
 	default:
 		panic(fmt.Errorf("can not convert (%T)%v to a %s", v, v, rv.Type()))
@@ -540,6 +544,9 @@ func (r *Recomposer) setValue(v any, rv reflect.Value, sf *reflect.StructField) 
 		} else if jn, jok := v.(json.Number); jok {
 			if i, err := jn.Int64(); err == nil {
 				rv.Set(reflect.ValueOf(i).Convert(rv.Type()))
+			} else if u, uerr := strconv.ParseUint(string(jn), 10, 64); uerr == nil && rv.CanUint() {
+				// An unsigned value above math.MaxInt64 as written by the encoders.
+				rv.SetUint(u)
 			} else {
 				panic(err)
 			}
